@@ -107,7 +107,7 @@ func vTwoPartyShutdown(cross bool) {
 		if bs != nil {
 			buf := make([]byte, 4)
 			for i := 0; i < nmsg; i++ {
-				n, _, rerr := bs.reassemblyQueue.read(buf)
+				n, _, rerr := bs.ReadSCTP(buf)
 				vassert(rerr == nil && n == 1 && buf[0] == sent[i], "every message accepted before Shutdown is readable at the peer, in order")
 			}
 		}
@@ -118,7 +118,7 @@ func vTwoPartyShutdown(cross bool) {
 		vassert(as != nil, "first side has the peer's stream")
 		if as != nil {
 			buf := make([]byte, 4)
-			n, _, rerr := as.reassemblyQueue.read(buf)
+			n, _, rerr := as.ReadSCTP(buf)
 			vassert(rerr == nil && n == 1 && buf[0] == sentB[0], "in a crossed shutdown the data of both sides is delivered")
 		}
 	}
@@ -302,7 +302,7 @@ func vh_C08_L3_one_loss() {
 		vassert(bs != nil, "peer has the stream")
 		if bs != nil {
 			buf := make([]byte, 4)
-			n, _, rerr := bs.reassemblyQueue.read(buf)
+			n, _, rerr := bs.ReadSCTP(buf)
 			vassert(rerr == nil && n == 1 && buf[0] == sent[0], "data written before Shutdown is delivered despite the loss")
 		}
 	}
@@ -357,7 +357,7 @@ func vh_C08_L1_inflight_at_shutdown() {
 	vassert(bs != nil, "peer has the stream")
 	if bs != nil {
 		buf := make([]byte, 4)
-		n, _, rerr := bs.reassemblyQueue.read(buf)
+		n, _, rerr := bs.ReadSCTP(buf)
 		vassert(rerr == nil && n == 1 && buf[0] == d[0], "the message in flight at the time of the call is delivered before the association closes")
 	}
 	vcover("end")
@@ -574,16 +574,28 @@ func vh_C08_L10_stream_queued_for_accept_survives_the_shutdown() {
 	net := &vNet{a: a, b: b, dropAt: -1, dupAt: -1}
 	net.settle(20, 4)
 	vassert(vIsShut(a) && vIsShut(b), "both sides end closed")
-	close(b.acceptCh)        // the read loop has ended: on its way out it closes the accept queue ...
-	close(b.readLoopCloseCh) // ... and says so
+	// the read loop has ended (the transport reported an error that is not io.EOF, as a UDP
+	// or DTLS transport does after Close): on its way out it unregisters every stream with
+	// that error, closes the accept queue and says so
+	b.lock.Lock()
+	for _, bs := range b.streams {
+		b.unregisterStream(bs, vConnErr{})
+	}
+	b.lock.Unlock()
+	close(b.acceptCh)
+	close(b.readLoopCloseCh)
 	vMustNotBlock("AcceptStream returns")
 	st, aerr := b.AcceptStream()
 	vMayBlock()
 	vassert(aerr == nil && st != nil, "the stream queued before the closure is still handed out")
 	if st != nil {
 		buf := make([]byte, 4)
-		n, _, rerr := st.reassemblyQueue.read(buf)
-		vassert(rerr == nil && n == 1 && buf[0] == m[0], "with the message the sender's Shutdown had waited for")
+		vMustNotBlock("a read on a stream of a closed association returns")
+		n, _, rerr := st.ReadSCTP(buf)
+		vassert(rerr == nil && n == 1 && buf[0] == m[0], "with the message the sender's Shutdown had waited for: data delivered before the closure is read before the closure is reported")
+		_, _, rerr2 := st.ReadSCTP(buf)
+		vMayBlock()
+		vassert(rerr2 != nil, "then the closure")
 	}
 	vMustNotBlock("AcceptStream returns")
 	_, aerr2 := b.AcceptStream()
@@ -595,3 +607,7 @@ func vh_C08_L10_stream_queued_for_accept_survives_the_shutdown() {
 // C08.L11: timer callbacks run without the timer's own mutex (a T2 expiry colliding with a
 // handler that stops T2 under the association lock cannot deadlock) (= C19.L3).
 func vh_C08_L11_timer_callbacks_run_unlocked() { vh_C19_L3_retry_law() }
+
+// C08.L12: when the writer meets a transport that is gone (any write error, io.EOF included)
+// it closes the transport so that the reader ends too and the streams report closure (= C09.L4).
+func vh_C08_L12_write_failure_ends_the_reader_too() { vh_C09_L4_write_failure() }
